@@ -1189,8 +1189,8 @@ def variants_in(t, enum_suffix):
 def tkey(t, depth=0):
     """like tstr but call terms carry their call site: two terms with equal keys denote the same dynamic value
     (same definition site), not merely the same expression shape"""
-    if depth > 14:
-        return "…"
+    if depth > 200:
+        return "…%d" % id(t)   # never equal to anything else: truncated terms must not compare equal
     k = t.k
     if k == "call":
         return "%s@%s(%s)" % (t.a[0], t.site, ",".join(tkey(x, depth + 1) for x in t.a[1]))
